@@ -1,0 +1,33 @@
+//go:build verif
+
+/*
+Copyright 2025 The Volcano Authors.
+
+Licensed under the Apache License, Version 2.0 (the "License");
+you may not use this file except in compliance with the License.
+You may obtain a copy of the License at
+
+    http://www.apache.org/licenses/LICENSE-2.0
+
+Unless required by applicable law or agreed to in writing, software
+distributed under the License is distributed on an "AS IS" BASIS,
+WITHOUT WARRANTIES OR CONDITIONS OF ANY KIND, either express or implied.
+See the License for the specific language governing permissions and
+limitations under the License.
+*/
+
+// Verification hook: exposes the schedule string the controller hands to the
+// cron parser. Compiled only with the build tag `verif`.
+package cronjob
+
+import (
+	batchv1 "volcano.sh/apis/pkg/apis/batch/v1alpha1"
+)
+
+// VerifFormatSchedule is formatSchedule with the given recorder (may be nil).
+func VerifFormatSchedule(cj *batchv1.CronJob, rec *VerifRecorder) string {
+	if rec == nil {
+		return formatSchedule(cj, nil)
+	}
+	return formatSchedule(cj, rec)
+}
